@@ -83,7 +83,40 @@ class PrivAttr(ast.NodeTransformer):
         self.generic_visit(c)
         return c
 
-VARIANTS = {'unparse': None, 'flipcmp': Flip, 'commute': Commute, 'funcops': FuncOps, 'rename': RenameLocals, 'privattr': PrivAttr}
+class PrivFunc(ast.NodeTransformer):
+    """Rename module-level private functions and constants (_x -> _x_pf) at their definition, at every Name use and in
+    `from m import _x` lists (applied to every module, so cross-module imports stay consistent)."""
+    def _p(self, n):
+        return n.startswith('_') and not n.startswith('__') and n != '_'
+    def visit_Module(self, m):
+        self.names = set()
+        for st in m.body:
+            if isinstance(st, (ast.FunctionDef, ast.ClassDef)) and self._p(st.name):
+                self.names.add(st.name)
+            if isinstance(st, ast.Assign):
+                for t in st.targets:
+                    if isinstance(t, ast.Name) and self._p(t.id):
+                        self.names.add(t.id)
+            if isinstance(st, ast.AnnAssign) and isinstance(st.target, ast.Name) and self._p(st.target.id):
+                self.names.add(st.target.id)
+            if isinstance(st, ast.ImportFrom) and st.module and st.module.startswith('jumanji'):
+                for a in st.names:
+                    if self._p(a.name) and a.asname is None:
+                        self.names.add(a.name)
+        for n in ast.walk(m):
+            if isinstance(n, ast.Name) and n.id in self.names:
+                n.id += '_pf'
+            elif isinstance(n, (ast.FunctionDef, ast.ClassDef)) and n in m.body and n.name in self.names:
+                n.name += '_pf'
+            elif isinstance(n, ast.ImportFrom) and n.module and n.module.startswith('jumanji'):
+                for a in n.names:
+                    if a.name in self.names:
+                        a.name += '_pf'
+            elif isinstance(n, ast.Global):
+                n.names = [x + '_pf' if x in self.names else x for x in n.names]
+        return m
+
+VARIANTS = {'unparse': None, 'flipcmp': Flip, 'commute': Commute, 'funcops': FuncOps, 'rename': RenameLocals, 'privattr': PrivAttr, 'privfunc': PrivFunc}
 checks = [c['property_id'] for c in json.load(open('/verif/MANIFEST.json'))['checks']]
 want = sys.argv[1:] or list(VARIANTS)
 for name in want:
